@@ -164,6 +164,8 @@ def run(ctx):
         ('quaternion_schur_unified[ds]', lambda a: schur.quaternion_schur_unified(a[0], variant='ds', max_iter=5), [S]), ('quaternion_schur_unified[hermitian,aed]', lambda a: schur.quaternion_schur_unified(a[0], variant='aed', max_iter=8), [Hm]),
         ('quaternion_schur_experimental', lambda a: schur.quaternion_schur_experimental(a[0], max_iter=5), [S]), ('quaternion_schur_experimental[francis_ds]', lambda a: schur.quaternion_schur_experimental(a[0], variant='francis_ds', max_iter=5), [S]),
         ('Hess_QR_ggivens', lambda a: utils.Hess_QR_ggivens(*a), [np.vstack([np.triu(rs.rand(4, 3), -1) for _ in range(4)])]), ('UtriangleQsparse', lambda a: utils.UtriangleQsparse(*a), Rt + bt),
+        ('tensor_frobenius_norm', lambda a: tensor.tensor_frobenius_norm(*a), [T3]), ('tensor_entrywise_abs', lambda a: tensor.tensor_entrywise_abs(*a), [T3]), ('normQ', lambda a: utils.normQ(*a), [A]),
+        ('induced_matrix_norm_1', lambda a: utils.induced_matrix_norm_1(*a), [A]), ('induced_matrix_norm_inf', lambda a: utils.induced_matrix_norm_inf(*a), [A]), ('spectral_norm_2', lambda a: utils.spectral_norm_2(*a), [A]),
         ('tensor_unfold', lambda a: tensor.tensor_unfold(a[0], 1), [T3]), ('tensor_fold', lambda a: tensor.tensor_fold(a[0], 1, (2, 3, 4)), [tensor.tensor_unfold(T3, 1)]),
         ('apply_blur_fft', lambda a: qslst.apply_blur_fft(*a), [img, psf]), ('qslst_restore_fft', lambda a: qslst.qslst_restore_fft(a[0], a[1], 0.1), [img, psf]), ('qslst_restore_matrix', lambda a: qslst.qslst_restore_matrix(a[0], a[1], 0.1), [rs.rand(2, 3, 4), rs.rand(6, 6)]),
         ('rgb_to_quat', lambda a: qslst.rgb_to_quat(*a), [rs.rand(3, 4, 3)]), ('quat_to_rgb', lambda a: qslst.quat_to_rgb(*a), [rs.rand(3, 4, 4)]), ('add_awgn_snr', lambda a: qslst.add_awgn_snr(a[0], 10.0, rng=np.random.default_rng(0)), [img]),
